@@ -149,14 +149,18 @@ def c02b(ctx):
     c = ctx.repo.cls('mapproxy/request/tile.py:TMSRequest')
     ctx.check(val == 'sw', 'TMSRequest:origin-sw', 'TMS requests address tiles from the south-west', (c.file, c.node.lineno))
     init = ctx.fn('mapproxy/request/tile.py:TileRequest.__init__')
-    g = init.cfg
-    resets = g.find_stmts(lambda s: isinstance(s, ast.Assign) and unparse(s.targets[0]) == 'self.origin' and const_value(s.value, 1) is None)
-    ok = bool(resets)
-    for n in resets:
-        st = enclosing(g.stmt[n], ast.If)
-        ok = ok and st is not None and isinstance(st.test, ast.Compare) and isinstance(st.test.ops[0], ast.NotIn) and \
-            set(const_value(e, 'x') for e in st.test.comparators[0].elts) == {'sw', 'nw', None}
-    ctx.check(ok, 'TileRequest.__init__:origin-whitelist', '?origin= accepts only sw / nw', init)
+    # the constructor is specialised for sample values of ?origin=: what it leaves in self.origin is the value itself for sw / nw /
+    # nothing, and None for anything else (whatever way the whitelist is written)
+    bad = []
+    for v in ('sw', 'nw', None, 'ul', 'll', 'xx', ''):
+        sp = ctx.repo.specialise(init, {"self.http.args.get('origin')": v})
+        final = getattr(sp.node, '_final_env', {}).get('self.origin')
+        want = v if v in ('sw', 'nw') else None
+        if final is None or not isinstance(final, ast.Constant) or final.value != want:
+            bad.append((v, unparse(final) if final is not None else 'undetermined'))
+    ok = not bad
+    ctx.check(ok, 'TileRequest.__init__:origin-whitelist', '?origin= accepts only sw / nw (7 sample values)', init,
+              fail='TileRequest keeps an ?origin= value other than sw / nw (or drops a valid one): %s' % bad[:2])
     for m in ('map', 'kml'):
         fn = ctx.fn('mapproxy/service/kml.py:KMLServer.' + m)
         g = fn.cfg
